@@ -69,7 +69,7 @@ _COV = re.compile(r'^<(\w+) line \d+, col \d+ to line \d+, col \d+ of module (\w
 
 def run_tlc(module, cfg_text, rundir, workers=1, env=None, extra=None, timeout=1800,
             simulate=None, depth=None, seed=None, coverage=False, deadlock=False,
-            java_opts=None, extra_modules=()):
+            java_opts=None, extra_modules=(), extra_texts=None):
   """Runs TLC on spec/<module>.tla with the given cfg text inside rundir.
 
   All spec modules are copied into rundir so TLC's relative lookups and generated files
@@ -81,6 +81,9 @@ def run_tlc(module, cfg_text, rundir, workers=1, env=None, extra=None, timeout=1
       shutil.copy(os.path.join(SPEC_DIR, f), os.path.join(rundir, f))
   for path in extra_modules:
     shutil.copy(path, os.path.join(rundir, os.path.basename(path)))
+  for name, text in (extra_texts or {}).items():
+    with open(os.path.join(rundir, name), 'w') as f:
+      f.write(text)
   cfg_path = os.path.join(rundir, module + '.cfg')
   with open(cfg_path, 'w') as f:
     f.write(cfg_text)
